@@ -1,9 +1,8 @@
 package main
 
 import (
-	"fmt"
+	"strconv"
 	"sort"
-	"strings"
 )
 
 // ------------------------------------------------------------------ linear forms over integer symbols
@@ -67,12 +66,31 @@ func (a Lin) syms() []Sym {
 }
 
 func (a Lin) key() string {
-	var sb strings.Builder
-	for _, s := range a.syms() {
-		fmt.Fprintf(&sb, "%d*%d,", a.T[s], s)
+	// hot: called for every constraint in every entailment query
+	n := len(a.T)
+	var small [8]Sym
+	ss := small[:0]
+	if n > len(small) {
+		ss = make([]Sym, 0, n)
 	}
-	fmt.Fprintf(&sb, "%d", a.C)
-	return sb.String()
+	for s := range a.T {
+		ss = append(ss, s)
+	}
+	// insertion sort: forms are short
+	for i := 1; i < len(ss); i++ {
+		for j := i; j > 0 && ss[j] < ss[j-1]; j-- {
+			ss[j], ss[j-1] = ss[j-1], ss[j]
+		}
+	}
+	buf := make([]byte, 0, 16*n+8)
+	for _, s := range ss {
+		buf = strconv.AppendInt(buf, a.T[s], 10)
+		buf = append(buf, '*')
+		buf = strconv.AppendInt(buf, int64(s), 10)
+		buf = append(buf, ',')
+	}
+	buf = strconv.AppendInt(buf, a.C, 10)
+	return string(buf)
 }
 
 // Cons is the constraint E ≥ 0.
@@ -199,15 +217,28 @@ func infeasibleFM(cs []Cons) bool {
 // gaussian substitutes symbols defined by equalities with a unit coefficient.
 func gaussian(cs []Cons) []Cons {
 	for round := 0; round < 32; round++ {
-		keys := map[string]int{}
+		keys := make(map[string]int, len(cs))
+		ts := make([]Cons, len(cs))
 		for i, c := range cs {
-			keys[c.tighten().E.key()] = i
+			ts[i] = c.tighten()
+			keys[ts[i].E.key()] = i
 		}
 		var eq *Lin
 		var sym Sym
 		found := false
-		for _, c := range cs {
-			ct := c.tighten()
+		for i := range cs {
+			ct := ts[i]
+			// only forms with a unit coefficient can be solved for a symbol: skip the rest early
+			unit := false
+			for _, k := range ct.E.T {
+				if k == 1 || k == -1 {
+					unit = true
+					break
+				}
+			}
+			if !unit {
+				continue
+			}
 			neg := Cons{ct.E.scale(-1)}.tighten()
 			if _, ok := keys[neg.E.key()]; !ok {
 				continue
